@@ -9,8 +9,10 @@ package server6
 //@ contract Logger.Printf
 //@   trusted
 
+// (a logger may look into the message it is given: the serving loop must hand it a message, never nil)
 //@ contract Logger.PrintMessage
 //@   trusted
+//@   requires message != nil
 
 // Serve: one iteration per datagram (see server4): left only through the read error; an undecodable datagram starts no
 // handler; a decodable one starts exactly one, with the message decoded from this datagram (allocated after it was read; decoders retain nothing of the buffer) and the
